@@ -84,9 +84,46 @@ class KernelHooks(Hooks):
         self.symloops = 0
 
     def external_call(self, it, name, node, args, this_cell):
+        if '_Bit_iterator' in name or (args and '_Bit_iterator' in (args[0].get('t') or '') and name.split('<')[0] in ('std::operator+', 'std::operator-', 'std::operator==', 'std::operator!=')):
+            # std::vector<bool> iterators are modelled as plain pointers into the abstract element array
+            def val(a):
+                v = it.lval(a).value if (a.get('lv') or a.get('xv')) else it.eval(a)
+                return v.value if isinstance(v, Cell) else v
+            meth = name.split('::')[-1]
+            if name.split('<')[0] == 'std::operator+':
+                return it.ptr_add(val(args[0]), val(args[1]))
+            if name.split('<')[0] == 'std::operator-':
+                a, b = val(args[0]), val(args[1])
+                if isinstance(b, Ptr):
+                    return a.off - b.off
+                return it.ptr_add(a, -b if isinstance(b, int) else it.to_poly(b).scale(-1))
+            if meth in ('operator==', 'operator!='):
+                a = this_cell.value if this_cell is not None else val(args[0])
+                b = val(args[-1])
+                eq = (a == b)
+                return (1 if eq else 0) if meth == 'operator==' else (0 if eq else 1)
+            if meth in ('operator++', 'operator--') and this_cell is not None:
+                d = -1 if meth == 'operator--' else 1
+                oldv = this_cell.value
+                it.write(this_cell, it.ptr_add(oldv, d), node)
+                return oldv if args else this_cell
+            if meth == 'operator*' and this_cell is not None:
+                return it.deref(this_cell.value, node)
+            if meth == 'operator[]' and this_cell is not None:
+                return it.deref(it.ptr_add(this_cell.value, val(args[0])), node)
+            if meth in ('operator+=', 'operator-=') and this_cell is not None:
+                k = val(args[0])
+                it.write(this_cell, it.ptr_add(this_cell.value, k if meth == 'operator+=' else -k), node)
+                return this_cell
+            if meth in ('_Bit_iterator', '_Bit_const_iterator') and this_cell is not None:
+                if args:
+                    this_cell.value = val(args[0])
+                return None
         if name in ('std::runtime_error::runtime_error', 'std::basic_string<char>::basic_string', 'std::to_string',
                     'std::operator+'):
             return Opaque(name)
+        if name.startswith(('std::lock_guard<', 'std::unique_lock<', 'std::scoped_lock<', 'std::mutex::', 'std::recursive_mutex::')):
+            return None  # sequential interpretation: taking and releasing a lock has no effect on values
         if name == 'gsl_matrix_complex_set':
             m = matrix_of(it.eval(args[0]))
             r, c = it.eval(args[1]), it.eval(args[2])
@@ -104,15 +141,77 @@ class KernelHooks(Hooks):
             r, c = it.eval(args[1]), it.eval(args[2])
             z = m.get(r, c)
             return gsl_complex(z.re, z.im)
-        if name in ('std::fill', 'std::fill<double *, double>'):
+        if name.split('<')[0] == 'std::fill':
             a, b, v = it.eval(args[0]), it.eval(args[1]), it.eval(args[2])
             if isinstance(v, Cell):
                 v = v.value
-            self._range_write(it, a, b, lambda k: it.to_poly(v), node)
+            self._range_write(it, a, b, lambda k: v if isinstance(v, int) and not isinstance(v, bool) and 'bool' in (args[2].get('t') or '') else it.to_poly(v), node)
             return None
-        if name.startswith('std::copy'):
+        base = name.split('<')[0]
+        if base in ('std::max', 'std::min') and len(args) == 2:
+            a, b = it.eval(args[0]), it.eval(args[1])
+            a = a.value if isinstance(a, Cell) else a
+            b = b.value if isinstance(b, Cell) else b
+            if isinstance(a, Poly) and a.is_const():
+                a = float(a.const_value())
+            if isinstance(b, Poly) and b.is_const():
+                b = float(b.const_value())
+            if isinstance(a, (int, float)) and isinstance(b, (int, float)):
+                r = max(a, b) if base == 'std::max' else min(a, b)
+                return r if isinstance(r, int) else Poly.const(r)
+        if base == 'std::fill_n':
+            a, cnt, v = it.eval(args[0]), it.eval(args[1]), it.eval(args[2])
+            if isinstance(v, Cell):
+                v = v.value
+            if not isinstance(cnt, int):
+                raise Unsupported('symbolic range length at %s' % it.loc(node))
+            for k in range(cnt):
+                it.write(it.deref(it.ptr_add(a, k), node), it.to_poly(v), node)
+            return it.ptr_add(a, max(cnt, 0))
+        if base == 'std::copy_n':
+            a, cnt, o = it.eval(args[0]), it.eval(args[1]), it.eval(args[2])
+            if not isinstance(cnt, int):
+                raise Unsupported('symbolic range length at %s' % it.loc(node))
+            for k in range(cnt):
+                it.write(it.deref(it.ptr_add(o, k), node), it.read(it.deref(it.ptr_add(a, k), node), node), node)
+            return it.ptr_add(o, max(cnt, 0))
+        if base == 'std::iota':
+            a, b, v = it.eval(args[0]), it.eval(args[1]), it.eval(args[2])
+            if isinstance(v, Cell):
+                v = v.value
+            n = self._count(it, a, b, node)
+            for k in range(n):
+                it.write(it.deref(it.ptr_add(a, k), node), v + k if isinstance(v, int) else it.to_poly(v) + Poly.const(k), node)
+            return None
+        if base == 'std::find':
+            a, b, v = it.eval(args[0]), it.eval(args[1]), it.eval(args[2])
+            if isinstance(v, Cell):
+                v = v.value
+            n = self._count(it, a, b, node)
+            for k in range(n):
+                x = it.read(it.deref(it.ptr_add(a, k), node), node)
+                if not (isinstance(x, int) and isinstance(v, int)):
+                    raise Unsupported('std::find over symbolic values at %s' % it.loc(node))
+                if x == v:
+                    return it.ptr_add(a, k)
+            return b
+        if name.startswith('std::initializer_list<') and this_cell is not None:
+            meth = name.split('>::')[-1]
+            reg = this_cell.value
+            if isinstance(reg, Region):
+                if meth == 'begin':
+                    return Ptr(reg, 0)
+                if meth == 'end':
+                    return Ptr(reg, reg.size)
+                if meth == 'size':
+                    return reg.size
+        if base in ('std::copy', 'std::copy_backward', 'std::move') and len(args) == 3:
             a, b, o = it.eval(args[0]), it.eval(args[1]), it.eval(args[2])
             n = self._count(it, a, b, node)
+            if base == 'std::copy_backward':
+                for k in range(n):
+                    it.write(it.deref(it.ptr_add(o, -1 - k), node), it.read(it.deref(it.ptr_add(b, -1 - k), node), node), node)
+                return it.ptr_add(o, -n)
             for k in range(n):
                 it.write(it.deref(it.ptr_add(o, k), node), it.read(it.deref(it.ptr_add(a, k), node), node), node)
             return it.ptr_add(o, n)
